@@ -298,7 +298,7 @@ Proof.
   intros (A & B) CR ST. destruct (A ST) as (FI & P1 & P2).
   rewrite ticks_add, app_comm_cons, run_app. apply settled_ticks.
   destruct s as [p f d di b st l fi t cr]. cbn in *. subst.
-  destruct p; try congruence; cbn; unfold settled; cbn; repeat split; auto.
+  destruct p; try congruence; vm_compute; repeat split; auto.
 Qed.
 
 Lemma failed_write_not_sticky_l ff ifile itemp ops v k :
@@ -335,8 +335,164 @@ Lemma failed_write_sticky_orig_l ff :
     crashed (run (ff, false) (init false 0) (ops ++ Save v :: ticks n)) = false.
 Proof.
   exists ops_busy_stuck. intros v n. rewrite run_app.
-  destruct n as [|[|[|n]]]; try (destruct ff; vm_compute; auto).
+  destruct n as [|[|[|n]]]; try solve [destruct ff; vm_compute; auto].
   change (ticks (S (S (S n)))) with (ticks 3 ++ ticks n).
   rewrite app_comm_cons, run_app.
   rewrite spin_forever; destruct ff; vm_compute; auto.
 Qed.
+
+(* ============================================================================================ *)
+(* machine variables                                                                             *)
+
+Lemma reload_spec_l now d n v :
+  In (n, v) (reload now d) <-> exists e sc, In (n, (v, e, sc)) d /\ expired e now = false.
+Proof.
+  unfold reload. rewrite in_map_iff. split.
+  - intros ([k [[w e] sc]] & E & I). cbn in E. inversion E; subst. apply filter_In in I as [I X].
+    cbn in X. exists e, sc. split; [exact I|]. destruct (expired e now); [discriminate|reflexivity].
+  - intros (e & sc & I & X). exists (n, (v, e, sc)). split; [reflexivity|].
+    apply filter_In. split; [exact I|]. cbn. rewrite X. reflexivity.
+Qed.
+
+Lemma vlookup_In {A} n (x : A) l : vlookup n l = Some x -> In (n, x) l.
+Proof.
+  induction l as [|[k y] r IH]; cbn; [discriminate|].
+  destruct (k =? n) eqn:E.
+  - apply Z.eqb_eq in E. intros H. inversion H; subst. left. reflexivity.
+  - intros H. right. apply IH, H.
+Qed.
+
+Lemma vupdate_same n y st : vlookup n st = Some y -> vupdate n y st = st.
+Proof.
+  induction st as [|[k z] r IH]; cbn; [discriminate|].
+  destruct (k =? n) eqn:E.
+  - intros H. inversion H; subst. reflexivity.
+  - intros H. rewrite IH by exact H. reflexivity.
+Qed.
+
+Lemma snapshot_cons k z r :
+  snapshot ((k, z) :: r) =
+  (if vpers z then [(k, (vval z, vtimeout z, vsecs z))] else []) ++ snapshot r.
+Proof. unfold snapshot. cbn. destruct (vpers z); reflexivity. Qed.
+
+Lemma snapshot_update_unpersisted n x y st :
+  vlookup n st = Some y -> vpers y = false -> vpers x = false ->
+  snapshot (vupdate n x st) = snapshot st.
+Proof.
+  induction st as [|[k z] r IH]; cbn [vlookup vupdate]; [discriminate|].
+  destruct (k =? n) eqn:E; intros H Py Px.
+  - inversion H; subst. rewrite !snapshot_cons, Py, Px. reflexivity.
+  - rewrite !snapshot_cons, IH by assumption. reflexivity.
+Qed.
+
+Lemma snapshot_add_unpersisted n x st :
+  vlookup n st = None -> vpers x = false -> snapshot (vupdate n x st) = snapshot st.
+Proof.
+  induction st as [|[k z] r IH]; cbn [vlookup vupdate].
+  - intros _ Px. rewrite snapshot_cons, Px. reflexivity.
+  - destruct (k =? n) eqn:E; [discriminate|]. intros H Px.
+    rewrite !snapshot_cons, IH by assumption. reflexivity.
+Qed.
+
+Lemma write_synced s st : synced (write s st).
+Proof. reflexivity. Qed.
+
+Lemma write_syncs_l s o : vwrites (vstep s o) <> vwrites s -> synced (vstep s o).
+Proof.
+  destruct o as [n v p|n p e|n|dt]; cbn.
+  - destruct (vlookup n (vstore s)) as [y|]; cbn.
+    + destruct (vpers y && _); [intros _; apply write_synced|cbn; congruence].
+    + destruct (p && _); [intros _; apply write_synced|cbn; congruence].
+  - congruence.
+  - destruct (vlookup n (vstore s)); [intros _; apply write_synced|congruence].
+  - congruence.
+Qed.
+
+Lemma sync_preserved_l s o : synced s -> is_conf o = false -> synced (vstep s o).
+Proof.
+  intros S C. destruct o as [n v p|n p e|n|dt]; cbn in *; try discriminate.
+  - destruct (vlookup n (vstore s)) as [y|] eqn:L; cbn.
+    + destruct (vpers y) eqn:P; cbn.
+      * destruct (vval y) as [w|] eqn:V; cbn; [|apply write_synced].
+        destruct (w =? v) eqn:W; cbn; [|apply write_synced].
+        destruct (vsecs y =? 0) eqn:Z0; cbn; [|apply write_synced].
+        apply Z.eqb_eq in W. subst w. unfold synced in *. cbn.
+        replace (mkv (Some v) true (vsecs y) (vtimeout y)) with y
+          by (destruct y; cbn in *; subst; reflexivity).
+        rewrite vupdate_same by exact L. exact S.
+      * unfold synced in *. cbn. rewrite S. symmetry.
+        eapply snapshot_update_unpersisted; eauto.
+    + destruct p; cbn; [apply write_synced|].
+      unfold synced in *. cbn. rewrite S. symmetry. apply snapshot_add_unpersisted; auto.
+  - destruct (vlookup n (vstore s)); [apply write_synced|exact S].
+  - exact S.
+Qed.
+
+Lemma synced_run_l ops : forall s,
+  synced s -> forallb (fun o => negb (is_conf o)) ops = true -> synced (vrun s ops).
+Proof.
+  induction ops as [|o r IH]; intros s S F; [exact S|].
+  cbn in F. apply andb_true_iff in F as [F1 F2]. cbn [vrun fold_left].
+  apply IH; [|exact F2]. apply sync_preserved_l; [exact S|]. destruct (is_conf o); [discriminate|reflexivity].
+Qed.
+
+Lemma persist_reload_equal_partial_l s now n x :
+  synced s ->
+  vlookup n (vstore s) = Some x -> vpers x = true -> expired (vtimeout x) now = false ->
+  In (n, vval x) (reload now (vdisk s)).
+Proof.
+  intros S L P X. apply reload_spec_l. exists (vtimeout x), (vsecs x). split; [|exact X].
+  rewrite S. unfold snapshot. apply in_map_iff. exists (n, x). split; [reflexivity|].
+  apply filter_In. split; [apply vlookup_In, L|exact P].
+Qed.
+
+Lemma reload_only_persisted_l s now n v :
+  synced s -> In (n, v) (reload now (vdisk s)) ->
+  exists x, In (n, x) (vstore s) /\ vpers x = true /\ vval x = v /\ expired (vtimeout x) now = false.
+Proof.
+  intros S I. apply reload_spec_l in I as (e & sc & I & X). rewrite S in I.
+  unfold snapshot in I. apply in_map_iff in I as ([k x] & E & I). cbn in E. inversion E; subst.
+  apply filter_In in I as [I P]. exists x. repeat split; auto.
+Qed.
+
+Lemma persist_reload_refuted_l :
+  exists ops n x now,
+    vlookup n (vstore (vrun vinit ops)) = Some x /\ vpers x = true /\
+    expired (vtimeout x) now = false /\
+    ~ In (n, vval x) (reload now (vdisk (vrun vinit ops))).
+Proof.
+  exists [VSet 1 5 false; VConf 1 true 0], 1, (mkv (Some 5) true 0 0), 1700000001.
+  vm_compute. repeat split; auto.
+Qed.
+
+(* ============================================================================================ *)
+(* the hypotheses of the theorems in Props.v are satisfiable on non-trivial states              *)
+
+(* a crash in the middle of the second write: v1 complete on disk, half of v2 in the temp file *)
+Example ex_never_torn :
+  let s := run (true, true) (init false 0)
+               ([Tick; Tick; Save 1] ++ ticks 8 ++ [Save 2; Tick; Tick; Tick; Tick; Tick; Tick; Crash; Tick; Save 3]) in
+  file s = Some (1, TFull) /\ temp s = Some (2, THalf) /\ crashed s = true.
+Proof. vm_compute. auto. Qed.
+
+Definition ops_clean_example : list op := ops_flush_dead ++ ticks 8.
+
+Example ex_clean_shutdown :
+  clean_from false ops_clean_example = true /\ last_saved ops_clean_example = Some 2 /\
+  pc (run (true, true) (init false 0) ops_clean_example) = PDone /\
+  file (run (true, true) (init false 0) ops_clean_example) = Some (2, TFull).
+Proof. vm_compute. auto. Qed.
+
+Example ex_not_sticky :
+  let s := run (true, true) (init true 2) ops_busy_stuck in
+  crashed s = false /\ stopper s = false /\ pc s = PRate /\ temp s = Some (1, TEmpty) /\
+  file (run (true, true) s (Save 7 :: ticks 24)) = Some (7, TFull).
+Proof. vm_compute. auto. Qed.
+
+Example ex_persist_reload :
+  let s := vrun vinit [VConf 1 true 100; VSet 1 5 false; VSet 2 9 true; VAdv 50; VSet 3 1 false] in
+  synced s /\ vlookup 1 (vstore s) = Some (mkv (Some 5) true 100 1700000100) /\
+  expired 1700000100 1700000100 = false /\ expired 1700000100 1700000101 = true /\
+  reload 1700000100 (vdisk s) = [(1, Some 5); (2, Some 9)] /\
+  reload 1700000101 (vdisk s) = [(2, Some 9)].
+Proof. vm_compute. auto 10. Qed.
